@@ -53,6 +53,11 @@ def prime():
 
 def _gen_omega(rw, L):
     r = rw.random()
+    if L >= 8 and rw.random() < 0.08:
+        # a fractional bin that is *almost* an integer bin (relative distance 1e-6 ... 1e-4 of the bin number)
+        k = rw.randrange(1, L // 2 + 1)
+        b = k * (1.0 + rw.choice([-1, 1]) * rw.choice([2e-6, 6e-6, 9e-6, 3e-5, 1e-4]))
+        return min(float(np.pi), 2 * np.pi * b / L)
     if r < 0.08:
         return 0.0
     if r < 0.16:
@@ -127,7 +132,7 @@ def generate(seed, tier):
     starts = _gen_starts(rw, N, L, K) if not huge_k else [rw.randrange(0, N - L + 1) for _ in range(K)]
     data = SC.gen_data_spec(rw, N, 2 if mode == "csd" else 1)
     via = rw.choice(["kernel", "analyzer"]) if not huge_k else "kernel"
-    win = rw.choice(["hann", "ones", "bartlett", "signed", "ramp", "kaiser"] if via == "kernel" else ["hann", "ones", "bartlett", "signed", "ramp"])
+    win = rw.choice(["hann", "ones", "bartlett", "signed", "ramp", "gated", "kaiser"] if via == "kernel" else ["hann", "ones", "bartlett", "signed", "ramp", "gated"])
     kinds = ["numpy", "real-numba"] if big else list(WORLD_KINDS)
     sc = {
         "mode": mode, "order": order, "L": L, "N": N, "starts": starts, "win": win, "psll": rw.choice([60, 120, 200]),
@@ -156,6 +161,8 @@ def generate(seed, tier):
     if not huge_k and rw.random() < 0.35:
         sc["refills"] = [dict(data, rng=rw.randrange(2 ** 31), recipe=rw.choice(["noise", "sine+noise", "randwalk", "trend+noise"]))
                          for _ in range(rw.randrange(1, 3))]
+    if mode == "csd" and rw.random() < 0.3:
+        sc["rows_of_recording"] = rw.randrange(1, 2 ** 31)
     # history inside one process: the same (L, omega) first analysed in auto mode, then in cross mode
     if mode == "csd" and rw.random() < 0.4:
         sc["auto_first"] = True
@@ -198,6 +205,8 @@ def _via_analyzer(sc, ws, x, y, out):
     if sc.get("b_offset"):
         cfg["custom_b_offset"] = sc["b_offset"]
     data = x if y is None else np.vstack([x, y])
+    if y is not None and getattr(x, "base", None) is not None and x.base is getattr(y, "base", None) and x.base.ndim == 2:
+        data = x.base[2:4]          # a contiguous row-slice view of the larger recording
     with W.analysis_world(ws) as ctx:
         an = SC.build_analyzer(data, cfg)
         res = an.compute()
@@ -208,8 +217,14 @@ def _via_analyzer(sc, ws, x, y, out):
 
 def execute(sc, out):
     specs = [sc["data"]] + list(sc.get("refills", []))
-    bufx = np.empty(sc["N"], dtype=np.float64)
-    bufy = np.empty(sc["N"], dtype=np.float64) if sc["mode"] == "csd" else None
+    if sc["mode"] == "csd" and sc.get("rows_of_recording"):
+        # the two channels are rows 2 and 3 of a larger recording whose other rows hold something else
+        big = np.random.default_rng(sc["rows_of_recording"]).normal(size=(4, sc["N"])) * 7.0
+        bufx, bufy = big[2], big[3]
+        out.count("channels_are_rows_of_a_larger_recording")
+    else:
+        bufx = np.empty(sc["N"], dtype=np.float64)
+        bufy = np.empty(sc["N"], dtype=np.float64) if sc["mode"] == "csd" else None
     for si, spec in enumerate(specs):
         rec = SC.make_record(spec)
         if sc["mode"] == "csd":
